@@ -161,7 +161,7 @@ def run(ctx):
     stB = stats[0]
     if stB["images"]["code"] != stB["triples"] or stB["images"]["plain"] >= stB["triples"]:
         raise MachineryError("injectivity statistics inconsistent: %s" % stB)
-    for need in ("conv", "extract", "pick", "sign", "mutsig", "verify", "verifymut", "equals", "matches", "mutform", "idlen"):
+    for need in ("conv", "decodex", "extract", "pick", "sign", "mutsig", "verify", "verifymut", "equals", "matches", "mutform", "idlen"):
         if not kC.get(need):
             raise MachineryError("vacuous: part C graph has no %s transition" % need)
     ver = {}
@@ -205,6 +205,14 @@ def run(ctx):
             raise MachineryError("vacuous: no byte-level edit changed exactly: %s" % cls)
     if not bx.get("bytes.accepted.same"):
         raise MachineryError("vacuous: no content-preserving edit was accepted")
+    kx = key.get("extra", {})
+    for kt in ("Ed25519", "Secp256k1", "ECDSA", "RSA"):
+        for e in ("x-unknown-append", "x-dup-field", "x-reorder", "x-nonminimal-len"):
+            if not kx.get("C.decodex.accepted-equal.%s:%s" % (e, kt)):
+                raise MachineryError("vacuous: no %s edit of a serialised %s key was accepted as an equal key" % (e, kt))
+    for kind in ("untyped", "typed", "pmem", "pds"):
+        if not kx.get("C.decodex.envelope." + kind):
+            raise MachineryError("vacuous: no envelope with an edited-but-equal key reached the %s consumer" % kind)
     ex_ = env.get("extra", {})
     for kind in ("untyped", "typed", "pmem", "pds", "voucher"):
         if not ex_.get("A.accepted." + kind):
